@@ -75,6 +75,11 @@ def run(facts, rep, ctx):
     want = bytes(table[c] for c in symbols)
     lits = sorted({c for c, _ in bytes_consts(be) if len(c) >= 4})
     key = 'FMDIndex::backward_ext|iteration-order'
+    # if the loop maps its literal through dna::complement, the effective order is complement(literal)
+    fam = [be] + facts.closures_of(be.path)
+    maps = any(call_info(t) and call_info(t)['fn'] == 'alphabets::dna::complement' for fb in fam for _bb, t in fb.calls())
+    if maps and len(lits) == 1:
+        lits = [bytes(table[c] for c in lits[0])]
     if len(lits) != 1:
         rep.bad(rule, key, '%s:%s' % (be.file, be.line), 'expected one symbol-order literal in backward_ext, found %r' % lits)
     elif lits[0] != want:
